@@ -299,7 +299,46 @@ pub fn run_c12(ctx: &mut Ctx) {
         },
         rep_json,
     );
+    run_c12_tactical(ctx);
 }
+fn run_c12_tactical(ctx: &mut Ctx) {
+    let t = ctx.tier;
+    // few men, sharp content: pawns about to promote (also by capture, inside quiescence), heavy
+    // pieces around a cornered king (mates of different lengths at sibling nodes)
+    run_prop(
+        ctx,
+        "shallow_search_vs_reference_promotions_and_mating_nets",
+        || {
+            let start = prop_oneof![
+                3 => placement_promo().prop_map(Start::Placement),
+                3 => placement_near_mate().prop_map(Start::Placement),
+                4 => placement_heavy_net().prop_map(Start::Placement),
+                1 => (17usize..22).prop_map(Start::Corpus),
+            ];
+            (start, proptest::collection::vec(any::<u16>(), 0..5)).prop_map(|(start, choices)| RepRecipe { walk: WalkRecipe { start, choices }, cycles: 0, c1: 0, c2: 0, tail_cut: 0 })
+        },
+        t.pick(14_000, 200_000),
+        |r, st| {
+            let Some((start, moves)) = rep_moves(r) else { return Ok(()) };
+            let mut p = start.clone();
+            for m in &moves {
+                p = p.apply(m);
+            }
+            if p.count() > 16 || p.legal_moves().is_empty() {
+                st.label("skipped_terminal_or_too_many_men");
+                return Ok(());
+            }
+            let Ok(case) = make_case(&start, &moves) else { return Ok(()) };
+            if p.legal_moves().iter().any(|m| m.promo.is_some()) {
+                st.label("root_with_promotion_available");
+            }
+            st.sample(|| case_json(&start, &moves));
+            c12_case(&case, st)
+        },
+        rep_json,
+    );
+}
+
 pub fn replay_c12(case: &Value) -> CaseResult {
     let (start, moves) = parse_game_case(case)?;
     let c = make_case(&start, &moves)?;
@@ -518,7 +557,7 @@ pub fn mate_position(r: &MateRecipe) -> Option<Pos> {
     }
 }
 fn mate_strategy() -> impl Strategy<Value = MateRecipe> {
-    (placement_near_mate(), 0u8..3, any::<u16>(), proptest::collection::vec(any::<u16>(), 0..2)).prop_map(|(base, variant, c, pre)| MateRecipe { base, variant, c, pre })
+    (prop_oneof![3 => placement_near_mate(), 1 => placement_heavy_net()], 0u8..3, any::<u16>(), proptest::collection::vec(any::<u16>(), 0..2)).prop_map(|(base, variant, c, pre)| MateRecipe { base, variant, c, pre })
 }
 fn mate_case_moves(r: &MateRecipe) -> Option<(Pos, Vec<Move>)> {
     let p = mate_position(r)?;
